@@ -88,6 +88,26 @@ func Value(r *rand.Rand, class string) float64 {
 		return float64(r.Intn(17)-8)/4 + (r.Float64()-0.5)*0.0002
 	case "tiny":
 		return (r.Float64() - 0.5) * 1e-3
+	case "residue":
+		// round 8 (C06-M, C05-M): non-zero magnitudes far below any "epsilon" a clean-up may introduce -
+		// trigonometric residue (cos(pi/2), sin(pi)), nano-scale coordinates, the float32 range below 1e-9
+		// down to subnormals - next to exact zeros and ordinary values, so that they are the extremes of
+		// some columns and interior values of others. Never part of the default class list: a monitor
+		// asks for it by name.
+		switch r.Intn(4) {
+		case 0:
+			return float64(r.Intn(3) - 1)
+		case 1:
+			return 0
+		}
+		v := []float64{6.123233995736766e-17, 1.2246467991473532e-16, 3.7e-9, 9.99e-9, 1e-12, 2.5e-20, 1.1754944e-38, 1e-40, 4.4e-16, 7e-11}[r.Intn(10)]
+		if r.Intn(3) == 0 {
+			v *= 1 + r.Float64()
+		}
+		if r.Intn(2) == 0 {
+			v = -v
+		}
+		return v
 	case "large":
 		return (r.Float64() - 0.5) * 2e5
 	}
